@@ -2,6 +2,7 @@ package checks
 
 import (
 	"fmt"
+	"os"
 	"runtime"
 	"time"
 
@@ -94,9 +95,9 @@ func c11Payloads(quick bool) []string {
 
 func c11(r *ev.Result, tier string) {
 	r.Rule = brokerRule + "; plus every string of <=2 (thorough 3) symbols over {a, quote, backslash, LF, CR, NUL, ESC, DEL, 0xc3, 0xff, e-acute, U+2028} as operator line and as output chunk through the real slog JSON handler"
-	budget := 50 * time.Second
+	budget := 120 * time.Second /* ~40 s on an idle machine; the cap only bites under load */
 	if !isQuick(tier) {
-		budget = 10 * time.Minute
+		budget = 15 * time.Minute
 	}
 	exploreProfiles(r, budget, c11Profiles(isQuick(tier))...)
 
@@ -138,5 +139,9 @@ func c11(r *ev.Result, tier string) {
 	r.Traces += n
 	r.Set("payload_runs", n)
 	r.Sample(12, map[string]any{"payload": "\"\xff\n", "as": "line and chunk", "history": "start admit admit line out line out release release"})
-	r.Assume("the -log file of the real binary is the same slog JSON handler writing to a file (curlrevshell.go); the handler is exercised for real, the file is not")
+	/* The -log file of the real binary, end to end. */
+	base := ev.Scratch("c11-")
+	c11RealBinary(r, base)
+	os.RemoveAll(base)
+	r.Rule += "; plus one end-to-end session of the real binary on a pty with -log (accepted input and output, a refused stream, 3 lines, 3 chunks incl. quotes and a non-UTF-8 byte, EOF): every line of the file parses as one JSON object and tells the same story"
 }
